@@ -15,7 +15,7 @@ def script_items(chk, n, seed, maxlen=4):
     """scripts of 2..maxlen statements rendered from histories that TLC enumerates/simulates from Script.tla"""
     from . import script_drv as d
     cfg = tlc.write_cfg(os.path.join(chk.work, "inputs_script.cfg"),
-                        constants=dict(TableSeq="<- TS4", MaxLen=maxlen + 2, MaxPairs=1, Known=set(), Emit=True, ColumnLess=True),
+                        constants=dict(TableSeq="<- TS4", MaxLen=maxlen + 2, MaxPairs=2, Known=set(), Emit=True, ColumnLess=True),
                         invariants=["EmitCase"])
     r = chk.tlc("MC_Script", cfg, "inputs: simulated histories", workers=1, coverage=False,
                 simulate="num=%d" % max(3, n // 4), depth=maxlen + 3, seed=seed)
@@ -24,5 +24,6 @@ def script_items(chk, n, seed, maxlen=4):
     rnd.shuffle(cs)
     out = []
     for c in cs[:n]:
-        out.append({"sql": ";\n".join(d.render(s) for s in c["h"]), "dialect": "ansi", "metadata": None, "origin": "Script.tla"})
+        dia = "mysql" if any(d.dialect_of(s) == "mysql" for s in c["h"]) else "ansi"
+        out.append({"sql": ";\n".join(d.render(s, dia) for s in c["h"]), "dialect": dia, "metadata": None, "origin": "Script.tla"})
     return out
